@@ -23,7 +23,7 @@ pub struct ErrorMessage {
     pub reason: String,
     /// A list of suggestions of how to fix the error
     pub hints: Vec<String>,
-    /// Character offset of error origin within a source file
+    /// Byte offset of error origin within a source file
     pub span: Option<Span>,
     /// Annotated code, containing cause and hints.
     pub display: Option<String>,
@@ -148,10 +148,19 @@ impl ErrorMessages {
                 continue;
             };
 
+            // spans are byte offsets, lines and columns are counted in characters
+            let chars = sources.sources.get(source_path).and_then(|text| {
+                let to_char = |byte: usize| {
+                    (byte <= text.len())
+                        .then(|| text.char_indices().take_while(|(i, _)| *i < byte).count())
+                };
+                Some(to_char(span.start)?..to_char(span.end)?)
+            });
+
             let Ok(source) = cache.fetch(source_path) else {
                 continue;
             };
-            e.location = e.compose_location(source);
+            e.location = chars.as_ref().and_then(|c| compose_location(c, source));
 
             assert!(
                 e.location.is_some(),
@@ -159,20 +168,25 @@ impl ErrorMessages {
                 e.span,
                 source.len()
             );
-            e.display = e.compose_display(source_path.clone(), &mut cache);
+            e.display = chars.and_then(|c| e.compose_display(c, source_path.clone(), &mut cache));
         }
         self
     }
 }
 
 impl ErrorMessage {
-    fn compose_display(&self, source_path: PathBuf, cache: &mut FileTreeCache) -> Option<String> {
+    /// `span` is the span of the error in characters
+    fn compose_display(
+        &self,
+        span: Range<usize>,
+        source_path: PathBuf,
+        cache: &mut FileTreeCache,
+    ) -> Option<String> {
         // We always pass color to ariadne as true, and then (currently) strip later.
         let config = Config::default().with_color(true);
 
         // Create a span tuple with the source path and the error range
-        let span = Range::from(self.span?);
-        let error_span = (source_path.clone(), span.start..span.end);
+        let error_span = (source_path.clone(), span);
 
         let mut report = Report::build(ReportKind::Error, error_span.clone())
             .with_config(config)
@@ -200,16 +214,16 @@ impl ErrorMessage {
             .map(|x| crate::utils::maybe_strip_colors(x.as_str()))
     }
 
-    fn compose_location(&self, source: &Source) -> Option<SourceLocation> {
-        let span = self.span?;
+}
 
-        let start = source.get_offset_line(span.start)?;
-        let end = source.get_offset_line(span.end)?;
-        Some(SourceLocation {
-            start: (start.1, start.2),
-            end: (end.1, end.2),
-        })
-    }
+/// `span` is the span of the error in characters
+fn compose_location(span: &Range<usize>, source: &Source) -> Option<SourceLocation> {
+    let start = source.get_offset_line(span.start)?;
+    let end = source.get_offset_line(span.end)?;
+    Some(SourceLocation {
+        start: (start.1, start.2),
+        end: (end.1, end.2),
+    })
 }
 
 struct FileTreeCache<'a> {
